@@ -86,6 +86,16 @@ SlashRecords(s, items) ==                         \* records up to the empty rec
     ELSE IF Head(s).k = "slash" THEN <<<<>>, Tail(s)>>
     ELSE LET r == SlashRecords(AfterSlash(s), items) IN <<<<Scan(UpToSlash(s), items)>> \o r[1], r[2]>>
 
+\* a collection of n tables: each table is a run of records closed by an empty record; the empty record that
+\* separates two tables is a record of the keyword (its items defaulted / empty), the one closing the last table is not
+RECURSIVE TableRecords(_, _, _)
+TableRecords(s, n, items) ==
+    IF n = 0 \/ s = <<>> THEN <<<<>>, s>>
+    ELSE IF Head(s).k = "slash"
+         THEN IF n = 1 THEN <<<<>>, Tail(s)>>
+              ELSE LET r == TableRecords(Tail(s), n - 1, items) IN <<<<Scan(<<>>, items)>> \o r[1], r[2]>>
+         ELSE LET r == TableRecords(AfterSlash(s), n, items) IN <<<<Scan(UpToSlash(s), items)>> \o r[1], r[2]>>
+
 \* the integer an earlier keyword gives for the size of a later one
 SizeFrom(deck, kw, item) ==
     LET found == {i \in 1..Len(deck) : deck[i].name = kw} IN
@@ -103,6 +113,7 @@ Keywords(s, deck) ==
                     [] sch.class = "data" -> FixedRecords(body, 1, sch.items)
                     [] sch.class = "other" -> FixedRecords(body, SizeFrom(deck, sch.szkw, sch.szitem), sch.items)
                     [] sch.class = "slash" -> SlashRecords(body, sch.items)
+                    [] sch.class = "tables" -> TableRecords(body, SizeFrom(deck, sch.szkw, sch.szitem), sch.items)
                     [] sch.class = "title" -> LET item == <<[st |-> "title", id |-> Head(body).id]>>
                                                   record == <<item>>
                                               IN <<<<record>>, Tail(body)>>
@@ -215,15 +226,22 @@ Spec == Init /\ [][Next]_vars
 EntryLex(e) == IF e.st = "def" THEN V(StarT(1, NoneT)) ELSE V(e.tok)
 RECURSIVE ItemLex(_)
 ItemLex(item) == IF item = <<>> THEN <<>> ELSE <<EntryLex(Head(item))>> \o ItemLex(Tail(item))
-RECURSIVE RecordLex(_)
-RecordLex(rec) == IF rec = <<>> THEN <<SL>> ELSE ItemLex(Head(rec)) \o RecordLex(Tail(rec))
+RECURSIVE RecordToks(_)
+RecordToks(rec) == IF rec = <<>> THEN <<>> ELSE ItemLex(Head(rec)) \o RecordToks(Tail(rec))
+IsDefaultLex(x) == x.k = "tok" /\ x.v.t = "star" /\ x.v.of = NoneT
+RECURSIVE StripTrailingDefaults(_)
+StripTrailingDefaults(toks) == IF toks # <<>> /\ IsDefaultLex(toks[Len(toks)]) THEN StripTrailingDefaults(SubSeq(toks, 1, Len(toks) - 1)) ELSE toks
+\* trailing defaulted single-valued items are implied by the end of the record and not written; the trailing
+\* defaults of a multi-valued last item are part of its size and are written
+RecordLex(rec) == LET toks == RecordToks(rec) IN
+                  (IF rec # <<>> /\ Len(rec[Len(rec)]) > 1 THEN toks ELSE StripTrailingDefaults(toks)) \o <<SL>>
 RECURSIVE RecordLines(_)
 RecordLines(recs) == IF recs = <<>> THEN <<>> ELSE <<RecordLex(Head(recs))>> \o RecordLines(Tail(recs))
 KeywordLines(kw) ==
     LET cls == Schema[kw.name].class IN
     <<<<KW(kw.name, "upper")>>>> \o
     (IF cls = "title" THEN <<<<TTL(kw.recs[1][1][1].id)>>>>
-     ELSE RecordLines(kw.recs) \o (IF cls = "slash" THEN <<<<SL>>>> ELSE <<>>))
+     ELSE RecordLines(kw.recs) \o (IF cls \in {"slash", "tables"} THEN <<<<SL>>>> ELSE <<>>))
 RECURSIVE PrintDeck(_)
 PrintDeck(deck) == IF deck = <<>> THEN <<>> ELSE KeywordLines(Head(deck)) \o PrintDeck(Tail(deck))
 \* print . parse is the identity on decks, and print(parse(print(d))) = print(d)
